@@ -7,7 +7,7 @@
    distinct values and prefix-free indices, target values have the type their action expects.
    Only statements; proofs in theories/SchcRoundtrip.v (built on SchcCodec, SchcRules, ParserTiling). *)
 From Coq Require Import ZArith List Bool.
-From MS Require Import PyBase Bits Schc SchcSpec SchcCodec SchcRules SchcRoundtrip Parsers ParserTiling Compute RfcChecksum StackRoundtrip Buffer BufferAbs SchcBytes SchcRefine ParserBytes ParserRefine EndToEnd ComputeBytes ComputeRefine.
+From MS Require Import PyBase Bits Schc SchcSpec SchcCodec SchcRules SchcRoundtrip Parsers ParserTiling Compute RfcChecksum StackRoundtrip Buffer BufferAbs SchcBytes SchcRefine ParserBytes ParserRefine EndToEnd ComputeBytes ComputeRefine ManagerBytes ManagerRefine.
 Import ListNotations.
 Open Scope Z_scope.
 
@@ -146,6 +146,25 @@ Example c01_ex :
   (do s <- cm_compress (factory S_UDP) [r] pkt Up FIRST ;; cm_decompress compute_functions [r] s (Some Up)) = Ok pkt.
 Proof. vm_compute. split; reflexivity. Qed.
 
+(* ... and through the byte-level context manager: parse the packet Buffer, pick a rule with either strategy, compress; find the rule
+   again from the id that leads the SCHC packet, decompress with the compute stage: the packet Buffer comes back *)
+Theorem c01_bytes_manager s rules b d st bfs bpl :
+  canon b -> bside b = LEFT -> Forall canon_rule rules -> bfactory s b = Ok (bfs, bpl) ->
+  let fs := map (abs_field abs) bfs in
+  let pl := abs bpl in
+  let rules' := map (abs_rule abs) rules in
+  prefix_free rules' -> forallb rule_typed rules' = true ->
+  (forall r, In r rules' -> spec_rule_applies (mkpdesc d fs pl) r = true ->
+     (rule_nature r = NoCompression /\ rule_fds r = []) \/
+     (rule_ok_dec compute_functions d (mkpdesc d fs pl) r /\
+      let rfs := select_fds (Some d) (rule_fds r) in
+      ce_sorted (centries_of compute_functions 0 rfs) = true /\ (length (centries_of compute_functions 0 rfs) < 64)%nat /\
+      run_computes (centries_of compute_functions 0 rfs) (combine (map r_id rfs) (map2 pre_value rfs fs) ++ [(payload_fid, pl)])
+        = Ok (combine (map r_id rfs) (map f_val fs) ++ [(payload_fid, pl)]))) ->
+  forall x, bcm_compress (bfactory s) rules b d st = Ok x ->
+  canon x /\ exists y, bcm_decompress rules x (Some d) = Ok y /\ canon y /\ abs y = abs b /\ b_eq y b = Ok true.
+Proof. exact (bytes_manager_roundtrip_factory s rules b d st bfs bpl). Qed.
+
 Print Assumptions c01_roundtrip_plain.
 Print Assumptions c01_roundtrip_compute_sort.
 Print Assumptions c01_roundtrip_compute.
@@ -159,3 +178,4 @@ Print Assumptions c01_bytes_ipv4_udp.
 Print Assumptions c01_manager.
 Print Assumptions c01_stack_tiles.
 Print Assumptions c01_matcher.
+Print Assumptions c01_bytes_manager.
